@@ -73,12 +73,12 @@ CLAIMED = {
         technique="TLA+ Layout enumeration + PostLex state machine (TLC), replayed on the real parser",
         ref="§2.8, §6 C01"),
     'C10': dict(
-        text="RepList.tla specifies one repeated field and all views onto it with Python list / ordered-dict semantics (PySeq.tla); TLC checks the design invariants and enumerates every call through every view with every index/slice spelling (depth 1) and reduced menus (depth 2-3); each behaviour is replayed on 9 repeated-field families of the real library (load factor rotated) and every view is compared with the specification after every call, including the Python read protocol (len, every index, slices, in, keys/values/items, first-match lookup). The operations inherited from collections.abc (+=, reverse, setdefault, update; iteration both ways, index, count, get) are part of the model. RepImpl.tla - the wrappers' token placement and the views' bisect index arithmetic transcribed statement by statement - is checked by TLC against the canonical rendering and the recomputed filters, each repaired deviation is reproduced as a TLC counterexample, and its behaviours are replayed on the real wrappers with the specification variable rawIdx compared to the private _raw_indexes of every registered view. After node-level and value-level slot edits (Slots.tla, incl. whole repeated fields replaced) every cached derived view must show what the printed document shows.",
+        text="RepList.tla specifies one repeated field and all views onto it with Python list / ordered-dict semantics (PySeq.tla); TLC checks the design invariants and enumerates every call through every view with every index/slice spelling (depth 1) and reduced menus (depth 2-3); each behaviour is replayed on 10 repeated-field families of the real library (load factor rotated) and every view is compared with the specification after every call, including the Python read protocol (len, every index, slices, in, keys/values/items, first-match lookup). The operations inherited from collections.abc (+=, reverse, setdefault, update; iteration both ways, index, count, get) are part of the model. RepImpl.tla - the wrappers' token placement and the views' bisect index arithmetic transcribed statement by statement - is checked by TLC against the canonical rendering and the recomputed filters, each repaired deviation is reproduced as a TLC counterexample, and its behaviours are replayed on the real wrappers with the specification variable rawIdx compared to the private _raw_indexes of every registered view. After node-level and value-level slot edits (Slots.tla, incl. whole repeated fields replaced) every cached derived view must show what the printed document shows.",
         note="Exhaustive within the constants in evidence.replist_runs; lists of <= 3 initial items, batches <= 2-3.",
         technique="TLA+ RepList/PySeq (TLC) + behaviour replay on the real views",
         ref="§2.3, §6 C10"),
     'C03': dict(
-        text="RepList.tla behaviours replayed on canonical and non-canonical host documents of 9 repeated-field families: printed text = the specification's rendering Doc(raw) on canonical hosts; frame conditions on every host (tokens outside the parent identical in identity/order/text, siblings keep their tokens, only item tokens and separator tokens appear or disappear, no token object at two places, the surviving items are exactly the specified ones). Slots.tla (schemas of 34 classes extracted reflectively, 157 slots incl. whole repeated fields) replayed on full, minimal and compact (no blanks) documents: node-level and value-level set / clear / replace / same-value writes with presence, sibling identity and token-level frame checks.",
+        text="RepList.tla behaviours replayed on canonical and non-canonical host documents of 10 repeated-field families: printed text = the specification's rendering Doc(raw) on canonical hosts; frame conditions on every host (tokens outside the parent identical in identity/order/text, siblings keep their tokens, only item tokens and separator tokens appear or disappear, no token object at two places, the surviving items are exactly the specified ones). Slots.tla (schemas of 34 classes extracted reflectively, 157 slots incl. whole repeated fields) replayed on full, minimal and compact (no blanks) documents: node-level and value-level set / clear / replace / same-value writes with presence, sibling identity and token-level frame checks.",
         note="Lists of <= 3 initial items, batches <= 2-3, slot histories of depth 1-2.",
         technique="TLA+ RepList rendering + frame conditions, replayed on real documents",
         ref="§2.3, §6 C03"),
